@@ -78,6 +78,8 @@ fn native_misc_registry0() -> Vec<(&'static str, fn(&mut crate::src::EnumSrc))> 
         ("nabi_nested", (|s: &mut crate::src::EnumSrc| crate::native_abi::abi_nested(s)) as fn(&mut crate::src::EnumSrc)),
         // n(nlayout_types, "C11", "Schema::layout_compatible on schemas produced by derive WithSchema (field offsets, AbiRemoved placeholders in enum variants) and by WithSchema for Box<[T]> / Arc<[T]> / Vec<T>", "5 pairs of concrete types that differ in memory layout");
         ("nlayout_types", (|s: &mut crate::src::EnumSrc| crate::native_abi::layout_type_pairs(s)) as fn(&mut crate::src::EnumSrc)),
+        // n(nlayout_smart_pointers, "C11", "WithSchema for Box<T> / Arc<T> (schema of T itself) as seen by Schema::layout_compatible", "2 pairs of concrete types");
+        ("nlayout_smart_pointers", (|s: &mut crate::src::EnumSrc| crate::native_abi::layout_smart_pointers(s)) as fn(&mut crate::src::EnumSrc)),
         // n(nabi_wide, "C09,C11", "AbiConnection::analyze_and_create (by-reference mask); savefile_abi_exportable output for a 40-argument method", "one 40-argument method; one argument and one string length vary");
         ("nabi_wide", (|s: &mut crate::src::EnumSrc| crate::native_abi::abi_wide(s)) as fn(&mut crate::src::EnumSrc)),
         // n(nabi_incompatible, "C10", "AbiConnection::analyze_and_create (argument count, argument type, return type checks)", "3 incompatible signature pairs and the identical pair");
